@@ -214,6 +214,38 @@ func MapOrderLeaks(fn *ssa.Function) (leaks []MapOrderLeak, loops int) {
 				}
 			}
 		}
+		// first-match selection: a value computed inside the loop from the
+		// iteration key/value and used after leaving the loop (break/return
+		// with the element found first) depends on the iteration order.
+		var next ssa.Value
+		for _, ref := range *rg.Referrers() {
+			if nx, ok := ref.(*ssa.Next); ok {
+				next = nx
+			}
+		}
+		for b := range body {
+			for _, ins := range b.Instrs {
+				v, ok := ins.(ssa.Value)
+				if !ok || v.Referrers() == nil {
+					continue
+				}
+				if _, isPhi := v.(*ssa.Phi); isPhi && b == header {
+					continue // loop-carried accumulator: covered by the sink rules
+				}
+				if v == next || !dependsOn(v, next, nil) {
+					continue
+				}
+				if ex, ok := v.(*ssa.Extract); ok && ex.Tuple == next && ex.Index == 0 {
+					continue // the "ok" flag of the iteration
+				}
+				for _, ref := range *v.Referrers() {
+					if body[ref.Block()] || feedsOnlyDiagnostics(ref, 6) {
+						continue
+					}
+					leaks = append(leaks, MapOrderLeak{rg, "first-match:" + abbr(Desc(v), 1), ref})
+				}
+			}
+		}
 		for _, s := range sinks {
 			// sort calls on the sink
 			var sorts []ssa.CallInstruction
@@ -275,6 +307,58 @@ func MapOrderLeaks(fn *ssa.Function) (leaks []MapOrderLeak, loops int) {
 		}
 	})
 	return leaks, loops
+}
+
+// feedsOnlyDiagnostics: the instruction only forwards its operand into the
+// argument list of a formatting / logging call (an error message naming the
+// element found first is not a protocol-relevant result).
+func feedsOnlyDiagnostics(in ssa.Instruction, d int) bool {
+	if d == 0 {
+		return false
+	}
+	switch x := in.(type) {
+	case ssa.CallInstruction:
+		n := CalleeName(x)
+		return strings.HasPrefix(n, "fmt.") || strings.Contains(n, "go-log") || strings.Contains(n, "zap.SugaredLogger.")
+	case *ssa.Store:
+		// store into a varargs slot: follow the slice made from the array
+		ia, ok := x.Addr.(*ssa.IndexAddr)
+		if !ok {
+			return false
+		}
+		al, ok := ia.X.(*ssa.Alloc)
+		if !ok || al.Referrers() == nil {
+			return false
+		}
+		all, n := true, 0
+		for _, ref := range *al.Referrers() {
+			if sl, ok := ref.(*ssa.Slice); ok && sl.Referrers() != nil {
+				for _, r2 := range *sl.Referrers() {
+					n++
+					if !feedsOnlyDiagnostics(r2, d-1) {
+						all = false
+					}
+				}
+			}
+		}
+		return all && n > 0
+	case ssa.Value:
+		switch x.(type) {
+		case *ssa.MakeInterface, *ssa.Convert, *ssa.ChangeType, *ssa.ChangeInterface:
+		default:
+			return false
+		}
+		if x.Referrers() == nil || len(*x.Referrers()) == 0 {
+			return false
+		}
+		for _, ref := range *x.Referrers() {
+			if !feedsOnlyDiagnostics(ref, d-1) {
+				return false
+			}
+		}
+		return true
+	}
+	return false
 }
 
 // NondetCalls lists calls in fn to process-global or environment-dependent
